@@ -224,6 +224,17 @@ def doQuery (a : Acc) (q : Json) : R Acc := do
     return { a with outM := a.outM.push (mk true), outS := a.outS.push (mk false), nt := a.nt + 1,
                     kf := if hasCore then (match a.kf with | some k => some k | none => some "core.Dataset-own-items-counter") else a.kf,
                     kfi := if hasCore then a.outM.size :: a.kfi else a.kfi }
+  | "context" =>
+    let name ← getStr q "ds"
+    match s.dsid.lookup name with
+    | none => let e := Json.mkObj [("err", Json.str "nods")]; return { a with outM := a.outM.push e, outS := a.outS.push e }
+    | some _ =>
+      let pn := (s.pubNs.lookup name).getD Json.null
+      let vals : List String := match pn with
+        | .arr xs => xs.toList.filterMap fun x => match x with | .str v => some v | _ => none
+        | _ => []
+      let o := Json.mkObj [("public", if vals.isEmpty then Json.null else jStrs (Hub.Store.sortBy (· < ·) vals.eraseDups))]
+      return { a with outM := a.outM.push o, outS := a.outS.push o, nt := a.nt + 1 }
   | "related" =>
     let limit := getNatD q "limit" 0
     let inverse := getBoolD q "inverse" false
@@ -448,6 +459,12 @@ def doOpCore (a : Acc) (idx : Nat) (op : Json) : R Acc := do
         parts := parts ++ [(ds, pairs.map (·.1))]
         tbl := (pairs.zipIdx.map fun (pr, i) => ((⟨pr.1.rid, ds, t, i⟩ : VKey), pr.2)) ++ tbl
     return { a with s := { s with db := execTxn s.db t parts (newRids op), ents := tbl, lastT := t } }
+  | "setPublicNs" =>
+    if !okRc then return a
+    let name ← getStr op "name"
+    if (s.dsid.lookup name).isNone then return a
+    let ns := (getOpt op "ns").getD (Json.arr #[])
+    return { a with s := { s with pubNs := (name, ns) :: s.pubNs.filter (·.1 != name) } }
   | "deleteDs" =>
     if !okRc then return a
     let name ← getStr op "name"
